@@ -394,6 +394,30 @@ def run_case(case):
                 C["invalid_reconfiguration_accepted"] += 1
         except Exception as e:
             bad("reconfiguration-raises", "evaluating around a refused re-configuration raised %r" % (e,))
+    if good and case["N"] == 1 and not case["single_frame"]:
+        th = good[0]
+        M8 = make_model(case)
+        inf8, _ = make_setup(case, M8)
+        try:
+            v_before = float(inf8.cost_function(np.array(th)))
+            # a refused setter call on its own: an entry that is not a plain dict is rejected; the object is then re-prepared
+            # (norm order set to what it already is) and must still be the accepted configuration
+            import collections as _c
+            try:
+                inf8.set_initial_conditions([_c.OrderedDict([("A", 50.0), ("B", 1.0), ("C", 2.0)])])
+                C["odd_initial_condition_accepted"] += 1
+                inf8.set_initial_conditions([dict(case["x0s"][0])])
+            except Exception:
+                inf8.set_norm_order(case["norm"])
+                M8.set_params({k: float(v_) for k, v_ in base_params.items()})
+                inf8.prepare_inference()
+                inf8.setup_cost_function()
+                v_re = float(inf8.cost_function(np.array(th)))
+                C["evaluations_after_refused_setter"] += 1
+                if not (v_re == v_before or abs(v_re - v_before) <= 1e-9 * (1 + abs(v_before))):
+                    bad("residue-of-refused-reconfiguration", "cost_function(%r) was %r, and is %r after set_initial_conditions refused an entry and the object was prepared again" % (th, v_before, v_re))
+        except Exception as e:
+            bad("reconfiguration-raises", "evaluating around a refused setter call raised %r" % (e,))
     # stochastic cost on a model whose stochastic simulation is deterministic (nothing can fire)
     if case["stochastic"]:
         import pandas as pd
